@@ -1,28 +1,35 @@
 (* C14 (b): a fragment of Python syntax, the fastparse conversion, the serializer's stream and the nativeparse reader.
    Executable definitions only.  Hand-written model; tied to /repo and to the installed ast_serialize by
-   tools/harness/C14.py (stage C: real fastparse tree = convert, real bytes = emit, real reader = read_native).
+   tools/harness/C14.py (stage C: real fastparse tree = convert, real bytes = emit, real reader = read_native = nconv).
 
-   Source side: the CPython `ast` tree WITH its positions (lineno, col_offset, end_lineno, end_col_offset).
-   `elif` clauses are kept as a list (CPython nests them as orelse=[If]; an orelse that is a single If starting in the
-   column of the outer `if` is an elif -- the harness does this split and the tie checks it).                       *)
+   Source side: the CPython `ast` tree WITH its positions (lineno, col_offset, end_lineno, end_col_offset), plus the few
+   source facts CPython's tree does not carry but the native front end reports (extent of `*name` parameters, position
+   of the name in `except E as name`).  `elif` clauses are kept as a list (CPython nests them as orelse=[If]; an orelse
+   that is a single If starting in the column of the outer `if` is an elif -- the harness does this split, the tie
+   checks it). *)
 From Coq Require Import ZArith List String Bool.
 From Gen Require Import Magic.
 Import ListNotations.
 Open Scope Z_scope.
 
+(* P line column end_line end_column.  In OUTPUT trees an unset end (end_line = end_column = None: fastparse leaves the end
+   of some nodes unset) is encoded as end_line = end_col = -1: PN. *)
 Inductive pos := P (line col end_line end_col : Z).
+Definition PN (line col : Z) : pos := P line col (-1) (-1).
 Definition p_line (p : pos) := let 'P a _ _ _ := p in a.
 Definition p_col (p : pos) := let 'P _ a _ _ := p in a.
 Definition p_eline (p : pos) := let 'P _ _ a _ := p in a.
 Definition p_ecol (p : pos) := let 'P _ _ _ a := p in a.
 (* start of a, end of b *)
 Definition span (a b : pos) : pos := P (p_line a) (p_col a) (p_eline b) (p_ecol b).
+Definition no_end (p : pos) : pos := PN (p_line p) (p_col p).
 
 Inductive binop := Add | Sub | Mult | MatMult | Div | Mod | Pow | LShift | RShift | BitOr | BitXor | BitAnd | FloorDiv.
 Inductive unop := Invert | Not | UAdd | USub.
 Inductive cmpop := Eq | NotEq | Lt | LtE | Gt | GtE | Is | IsNot | In | NotIn.
 Inductive boolop := And | Or.
 Inductive akind := APos | AStar | ANamed (name : string) | ADStar.
+Inductive pkind := KPosOnly | KPos | KStar | KKwOnly | KDStar.
 
 (* ---------------------------------------------------------------- source trees (mutual, explicit list types) *)
 Inductive expr :=
@@ -38,40 +45,79 @@ Inductive expr :=
 | EIfExp (p : pos) (test body orelse : expr)
 | ETuple (p : pos) (es : exprs)
 | EList (p : pos) (es : exprs)
+| ESet (p : pos) (es : exprs)
+| EDict (p : pos) (items : ditems)
+| ESubscript (p : pos) (v idx : expr)
+| ESlice (p : pos) (lo hi step : oexpr)
+| EStar (p : pos) (e : expr)
+| ELambda (p : pos) (ps : params) (body : expr)
 with exprs := ENil | ECons (e : expr) (es : exprs)
 with args := ANil | ACons (k : akind) (e : expr) (a : args)
-with cmps := CNil | CCons (op : cmpop) (e : expr) (c : cmps).
+with cmps := CNil | CCons (op : cmpop) (e : expr) (c : cmps)
+with oexpr := ONone | OSome (e : expr)
+(* dict display: key (None for `**d`) and value *)
+with ditems := DNil | DCons (k : oexpr) (v : expr) (rest : ditems)
+(* parameters in CPython's order (posonly, args, vararg, kwonly, kwarg), each with its default.  p = the ast.arg position
+   (the NAME only); sp = the extent as written, i.e. including a leading `*` / `**` (= p for the other kinds) *)
+with params := PNil | PCons (p sp : pos) (name : string) (k : pkind) (d : oexpr) (rest : params).
 
-(* parameters of a `def`, in CPython's order (posonly, args, vararg, kwonly, kwarg), each with its default.
-   p = the ast.arg position (the NAME only);  sp = the extent of the parameter as written, i.e. including a leading
-   `*` / `**` (equal to p for the other kinds): the native front end reports sp, CPython p. *)
-Inductive pkind := KPosOnly | KPos | KStar | KKwOnly | KDStar.
-Inductive params := PNil | PCons (p sp : pos) (name : string) (k : pkind) (d : option expr) (rest : params).
+(* the type-expression sublanguage both converters turn into UnboundType / UnionType: (dotted) names, None,
+   subscripts of a (dotted) name, `|` unions.  tup = the subscript's slice is a tuple display *)
+Inductive ty :=
+| TyName (p : pos) (dotted : string)
+| TyNone (p : pos)
+| TySub (p : pos) (base : string) (tup : bool) (a : tys)
+| TyUnion (p : pos) (l r : ty)
+with tys := TNil | TCons (t : ty) (ts : tys).
+Definition typos (t : ty) : pos := match t with TyName p _ | TyNone p | TySub p _ _ _ | TyUnion p _ _ => p end.
 
-(* keywords of a class statement: name=value (a `**kw` keyword is outside the fragment) *)
+(* keywords of a class statement: name=value *)
 Inductive ckws := KNil | KCons (name : string) (e : expr) (rest : ckws).
+(* with items *)
+Inductive witems := WNil | WCons (ctx : expr) (target : oexpr) (rest : witems).
 
 Inductive stmt :=
 | SClass (p : pos) (name : string) (bases : exprs) (kws : ckws) (decorators : exprs) (b0 : stmt) (bs : stmts)
-| SDef (p : pos) (name : string) (ps : params) (b0 : stmt) (bs : stmts)
+(* dp: where the first decorator starts as written (after `@`, parentheses included); = p when undecorated *)
+| SDef (p : pos) (name : string) (ps : params) (decorators : exprs) (dp : pos) (b0 : stmt) (bs : stmts)
 | SExpr (p : pos) (e : expr)
 | SAssign (p : pos) (targets : exprs) (value : expr)
-| SReturn (p : pos) (v : option expr)
+| SAnnAssign (p : pos) (target : expr) (annotation : ty) (value : oexpr)
+| SAugAssign (p : pos) (op : binop) (target value : expr)
+| SReturn (p : pos) (v : oexpr)
 | SPass (p : pos)
+| SBreak (p : pos)
+| SContinue (p : pos)
+| SGlobal (p : pos) (names : list string)
+| SNonlocal (p : pos) (names : list string)
+| SDel (p : pos) (t0 : expr) (ts : exprs)
+| SAssert (p : pos) (test : expr) (msg : oexpr)
+| SRaise (p : pos) (exc cause : oexpr)
+| SImport (p : pos) (names : list (string * option string))
+| SImportFrom (p : pos) (level : Z) (module : string) (names : list (string * option string))
+| SImportAll (p : pos) (level : Z) (module : string)
 | SWhile (p : pos) (test : expr) (b0 : stmt) (bs : stmts) (orelse : stmts)
 | SFor (p : pos) (target iter : expr) (b0 : stmt) (bs : stmts) (orelse : stmts)
 | SIf (p : pos) (test : expr) (b0 : stmt) (bs : stmts) (el : elifs) (orelse : stmts)
+| SWith (p : pos) (items : witems) (b0 : stmt) (bs : stmts)
+| STry (p : pos) (b0 : stmt) (bs : stmts) (hs : handlers) (orelse final : stmts)
 with stmts := SNil | SCons (s : stmt) (ss : stmts)
-with elifs := LNil | LCons (p : pos) (test : expr) (b0 : stmt) (bs : stmts) (el : elifs).
+with elifs := LNil | LCons (p : pos) (test : expr) (b0 : stmt) (bs : stmts) (el : elifs)
+(* except [ty [as name]]: hp = position of the handler, np = position of the name token *)
+with handlers := HNil | HCons (hp : pos) (ty : oexpr) (name : option (string * pos)) (b0 : stmt) (bs : stmts) (rest : handlers).
 
 Definition epos (e : expr) : pos :=
   match e with
   | EName p _ | EInt p _ | EStr p _ | EAttr p _ _ | ECall p _ _ | EBin p _ _ _ | EUnary p _ _ | ECompare p _ _
-  | EBoolOp p _ _ _ _ | EIfExp p _ _ _ | ETuple p _ | EList p _ => p
+  | EBoolOp p _ _ _ _ | EIfExp p _ _ _ | ETuple p _ | EList p _ | ESet p _ | EDict p _ | ESubscript p _ _
+  | ESlice p _ _ _ | EStar p _ | ELambda p _ _ => p
   end.
 Definition spos (s : stmt) : pos :=
   match s with
-  | SClass p _ _ _ _ _ _ | SDef p _ _ _ _ | SExpr p _ | SAssign p _ _ | SReturn p _ | SPass p | SWhile p _ _ _ _ | SFor p _ _ _ _ _ | SIf p _ _ _ _ _ => p
+  | SClass p _ _ _ _ _ _ | SDef p _ _ _ _ _ _ | SExpr p _ | SAssign p _ _ | SAnnAssign p _ _ _ | SAugAssign p _ _ _ | SReturn p _ | SPass p
+  | SBreak p | SContinue p | SGlobal p _ | SNonlocal p _ | SDel p _ _ | SAssert p _ _ | SRaise p _ _ | SImport p _
+  | SImportFrom p _ _ _ | SImportAll p _ _ | SWhile p _ _ _ _ | SFor p _ _ _ _ _ | SIf p _ _ _ _ _ | SWith p _ _ _
+  | STry p _ _ _ _ _ => p
   end.
 
 (* ---------------------------------------------------------------- mypy trees *)
@@ -89,37 +135,76 @@ Inductive mexpr :=
 | MCompare (p : pos) (ops : list string) (operands : list mexpr)
 | MCond (p : pos) (cond if_expr else_expr : mexpr)
 | MTuple (p : pos) (items : list mexpr)
-| MList (p : pos) (items : list mexpr).
-
+| MList (p : pos) (items : list mexpr)
+| MSet (p : pos) (items : list mexpr)
+| MDict (p : pos) (items : list (option mexpr * mexpr))
+| MIndex (p : pos) (base index : mexpr)
+| MSlice (p : pos) (b e s : option mexpr)
+| MStar (p : pos) (e : mexpr)
+(* TempNode(Any, no_rhs=True): the right-hand side of `x: T` *)
+| MTemp (p : pos)
+(* LambdaExpr: arguments and the body Block([ReturnStmt(expr)]) with the positions of the block and of the return *)
+| MLambda (p : pos) (args : list marg) (bp rp : pos) (body : mexpr)
 (* Argument (position p) with its Var (position vp) *)
-Inductive marg := MArg (p vp : pos) (name : string) (kind : argkind) (init : option mexpr) (pos_only : bool).
+with marg := MArg (p vp : pos) (name : string) (kind : argkind) (init : option mexpr) (pos_only : bool).
+
+(* UnboundType(name, args, empty_tuple_index) / UnionType(items) [uses_pep604_syntax, is_evaluated: true] *)
+Inductive mty :=
+| MUnbound (p : pos) (name : string) (args : list mty) (empty_tuple_index : bool)
+| MUnion (p : pos) (items : list mty).
+
+(* UnionType.__init__ flattens directly nested unions (flatten_nested_unions) -- under both converters *)
+Definition flat_union (t : mty) : list mty := match t with MUnion _ items => items | _ => [t] end.
+Definition mk_union (p : pos) (items : list mty) : mty := MUnion p (flat_map flat_union items).
 
 Inductive mstmt :=
 | MClassDef (p : pos) (name : string) (defs : mblock) (base_type_exprs : list mexpr) (metaclass : option mexpr)
             (keywords : list (string * mexpr)) (decorators : list mexpr)
 | MFuncDef (p : pos) (name : string) (args : list marg) (body : mblock)
+| MDecorator (p : pos) (decorators : list mexpr) (func : mstmt)
 | MExprStmt (p : pos) (e : mexpr)
 | MAssign (p : pos) (lvalues : list mexpr) (rvalue : mexpr) (new_syntax : bool)
+(* AssignmentStmt with a declared type *)
+| MAnnAssign (p : pos) (lvalues : list mexpr) (rvalue : mexpr) (t : mty) (new_syntax : bool)
+| MOpAssign (p : pos) (op : string) (lvalue rvalue : mexpr)
 | MReturn (p : pos) (e : option mexpr)
 | MPass (p : pos)
+| MBreak (p : pos)
+| MContinue (p : pos)
+| MGlobal (p : pos) (names : list string)
+| MNonlocal (p : pos) (names : list string)
+| MDel (p : pos) (e : mexpr)
+| MAssert (p : pos) (e : mexpr) (msg : option mexpr)
+| MRaise (p : pos) (e from : option mexpr)
+| MImport (p : pos) (ids : list (string * option string))
+| MImportFrom (p : pos) (id : string) (relative : Z) (names : list (string * option string))
+| MImportAll (p : pos) (id : string) (relative : Z)
 | MWhile (p : pos) (e : mexpr) (body : mblock) (else_body : option mblock)
 | MFor (p : pos) (index e : mexpr) (body : mblock) (else_body : option mblock)
 | MIf (p : pos) (e : mexpr) (body : mblock) (else_body : option mblock)
+| MWith (p : pos) (exprs : list mexpr) (targets : list (option mexpr)) (body : mblock)
+(* TryStmt: vars (NameExpr name + position), types, handler bodies, else, finally *)
+| MTry (p : pos) (body : mblock) (vars : list (option (string * pos))) (types : list (option mexpr))
+       (handlers : list mblock) (else_body finally_body : option mblock)
 with mblock := MBlock (p : pos) (is_unreachable : bool) (body : list mstmt).
 
 Definition mepos (e : mexpr) : pos :=
   match e with
   | MName p _ | MInt p _ | MStr p _ | MMember p _ _ | MSuper p _ _ | MCall p _ _ _ _ | MOp p _ _ _ | MUnary p _ _
-  | MCompare p _ _ | MCond p _ _ _ | MTuple p _ | MList p _ => p
+  | MCompare p _ _ | MCond p _ _ _ | MTuple p _ | MList p _ | MSet p _ | MDict p _ | MIndex p _ _ | MSlice p _ _ _
+  | MStar p _ | MTemp p | MLambda p _ _ _ _ => p
   end.
 Definition mspos (s : mstmt) : pos :=
   match s with
-  | MClassDef p _ _ _ _ _ _ | MFuncDef p _ _ _ | MExprStmt p _ | MAssign p _ _ _ | MReturn p _ | MPass p | MWhile p _ _ _ | MFor p _ _ _ _ | MIf p _ _ _ => p
+  | MClassDef p _ _ _ _ _ _ | MFuncDef p _ _ _ | MDecorator p _ _ | MExprStmt p _ | MAssign p _ _ _ | MAnnAssign p _ _ _ _ | MOpAssign p _ _ _
+  | MReturn p _ | MPass p | MBreak p | MContinue p | MGlobal p _ | MNonlocal p _ | MDel p _ | MAssert p _ _ | MRaise p _ _
+  | MImport p _ | MImportFrom p _ _ _ | MImportAll p _ _ | MWhile p _ _ _ | MFor p _ _ _ _ | MIf p _ _ _ | MWith p _ _ _
+  | MTry p _ _ _ _ _ _ => p
   end.
 Definition mbpos (b : mblock) : pos := let 'MBlock p _ _ := b in p.
 
 (* operator tables: nativeparse.bin_ops / cmp_ops / unary_ops / bool_ops (index = what the stream carries);
-   fastparse.ASTConverter.op_map / comp_op_map and the if-chain of visit_UnaryOp / visit_BoolOp (strings) *)
+   fastparse.ASTConverter.op_map / comp_op_map and the if-chains of visit_UnaryOp / visit_BoolOp (strings) *)
 Definition bin_ops : list string := ["+"; "-"; "*"; "@"; "/"; "%"; "**"; "<<"; ">>"; "|"; "^"; "&"; "//"]%string.
 Definition cmp_ops : list string := ["=="; "!="; "<"; "<="; ">"; ">="; "is"; "is not"; "in"; "not in"]%string.
 Definition unary_ops : list string := ["~"; "not"; "+"; "-"]%string.
@@ -156,6 +241,29 @@ Definition mk_member (p : pos) (e : mexpr) (attr : string) : mexpr :=
   | _ => MMember p e attr
   end.
 
+(* transform_args / make_argument; do_func_def then forces pos_only for the special methods *)
+Definition has_default (d : oexpr) : bool := match d with OSome _ => true | ONone => false end.
+Definition param_kind (k : pkind) (d : bool) : argkind :=
+  match k, d with
+  | KPosOnly, false | KPos, false => ARG_POS
+  | KPosOnly, true | KPos, true => ARG_OPT
+  | KStar, _ => ARG_STAR
+  | KKwOnly, false => ARG_NAMED
+  | KKwOnly, true => ARG_NAMED_OPT
+  | KDStar, _ => ARG_STAR2
+  end.
+Definition param_pos_only (k : pkind) (name : string) : bool :=
+  match k with KPosOnly => true | _ => false end || argument_elide_name name.
+(* what the serializer writes: the `__name` rule is applied to ordinary positional parameters only *)
+Definition emit_pos_only (k : pkind) (name : string) : bool :=
+  match k with KPosOnly => true | KPos => argument_elide_name name | _ => false end.
+Definition force_pos_only (b : bool) (l : list marg) : list marg :=
+  if b then map (fun a => let 'MArg p vp n k i _ := a in MArg p vp n k i true) l else l.
+
+(* dict(keywords).get("metaclass"): the last keyword called metaclass (both converters compute it this way) *)
+Definition find_metaclass (kws : list (string * mexpr)) : option mexpr :=
+  fold_left (fun acc kv => if String.eqb (fst kv) "metaclass" then Some (snd kv) else acc) kws None.
+
 (* ================================================================ (i) fastparse.ASTConverter *)
 (* group(): every nested OpExpr gets the position of the whole BoolOp *)
 Fixpoint group (p : pos) (op : string) (v0 v1 : mexpr) (rest : list mexpr) : mexpr :=
@@ -185,64 +293,108 @@ Fixpoint conv_e (e : expr) : mexpr :=
   | EIfExp p t b o => MCond p (conv_e t) (conv_e b) (conv_e o)
   | ETuple p es => MTuple p (conv_es es)
   | EList p es => MList p (conv_es es)
+  | ESet p es => MSet p (conv_es es)
+  | EDict p it => MDict p (conv_ditems it)
+  | ESubscript p v i => MIndex p (conv_e v) (conv_e i)
+  | ESlice p a b c => MSlice p (conv_oe a) (conv_oe b) (conv_oe c)
+  | EStar p e => MStar p (conv_e e)
+  (* visit_Lambda: a synthetic ast.Return carrying only lineno/col_offset of the body; e.set_line(lineno, col_offset) *)
+  | ELambda p ps b => MLambda (no_end p) (conv_params ps) (no_end (epos b)) (no_end (epos b)) (conv_e b)
   end
 with conv_es (es : exprs) : list mexpr :=
   match es with ENil => [] | ECons e es' => conv_e e :: conv_es es' end
 with conv_args (a : args) : list mexpr :=
   match a with ANil => [] | ACons _ e a' => conv_e e :: conv_args a' end
 with conv_cmps (c : cmps) : list mexpr :=
-  match c with CNil => [] | CCons _ e c' => conv_e e :: conv_cmps c' end.
-
-(* transform_args / make_argument; do_func_def then forces pos_only for the special methods *)
-Definition param_kind (k : pkind) (d : option expr) : argkind :=
-  match k, d with
-  | KPosOnly, None | KPos, None => ARG_POS
-  | KPosOnly, Some _ | KPos, Some _ => ARG_OPT
-  | KStar, _ => ARG_STAR
-  | KKwOnly, None => ARG_NAMED
-  | KKwOnly, Some _ => ARG_NAMED_OPT
-  | KDStar, _ => ARG_STAR2
-  end.
-Definition param_pos_only (k : pkind) (name : string) : bool :=
-  match k with KPosOnly => true | _ => false end || argument_elide_name name.
-(* what the serializer writes: the `__name` rule is applied to ordinary positional parameters only *)
-Definition emit_pos_only (k : pkind) (name : string) : bool :=
-  match k with KPosOnly => true | KPos => argument_elide_name name | _ => false end.
-Definition force_pos_only (b : bool) (l : list marg) : list marg :=
-  if b then map (fun a => let 'MArg p vp n k i _ := a in MArg p vp n k i true) l else l.
-Fixpoint conv_params (ps : params) : list marg :=
+  match c with CNil => [] | CCons _ e c' => conv_e e :: conv_cmps c' end
+with conv_oe (o : oexpr) : option mexpr :=
+  match o with ONone => None | OSome e => Some (conv_e e) end
+with conv_ditems (d : ditems) : list (option mexpr * mexpr) :=
+  match d with DNil => [] | DCons k v r => (conv_oe k, conv_e v) :: conv_ditems r end
+with conv_params (ps : params) : list marg :=
   match ps with
   | PNil => []
-  | PCons p _ n k d r =>
-      MArg p p n (param_kind k d) (match d with Some e => Some (conv_e e) | None => None end) (param_pos_only k n) :: conv_params r
+  | PCons p _ n k d r => MArg p p n (param_kind k (has_default d)) (conv_oe d) (param_pos_only k n) :: conv_params r
   end.
 
-(* dict(keywords).get("metaclass"): the last keyword called metaclass (both converters compute it this way) *)
-Definition find_metaclass (kws : list (string * mexpr)) : option mexpr :=
-  fold_left (fun acc kv => if String.eqb (fst kv) "metaclass" then Some (snd kv) else acc) kws None.
 Fixpoint conv_ckws (k : ckws) : list (string * mexpr) :=
   match k with KNil => [] | KCons n e r => (n, conv_e e) :: conv_ckws r end.
+Fixpoint conv_wexprs (w : witems) : list mexpr :=
+  match w with WNil => [] | WCons c _ r => conv_e c :: conv_wexprs r end.
+Fixpoint conv_wtargets (w : witems) : list (option mexpr) :=
+  match w with WNil => [] | WCons _ t r => conv_oe t :: conv_wtargets r end.
 
-(* set_block_lines: first.lineno/col_offset, last.end_lineno/end_col_offset of the *ast* statements *)
+(* TypeConverter(line = the statement's line): every node gets that line, the column of its expression and no end --
+   except a subscript, which gets the end of the subscript expression; `None` gets no column *)
+Fixpoint conv_ty (line : Z) (t : ty) : mty :=
+  match t with
+  | TyName p n => MUnbound (PN line (p_col p)) n [] false
+  | TyNone p => MUnbound (PN line (-1)) "None" [] false
+  | TySub p b tup a =>
+      MUnbound (P line (p_col p) (p_eline p) (p_ecol p)) b (conv_tys line a) (tup && match a with TNil => true | _ => false end)
+  | TyUnion p l r => mk_union (PN line (p_col p)) [conv_ty line l; conv_ty line r]
+  end
+with conv_tys (line : Z) (a : tys) : list mty :=
+  match a with TNil => [] | TCons t ts => conv_ty line t :: conv_tys line ts end.
+(* visit_AnnAssign: typ.column = n.annotation.col_offset *)
+Definition set_col (c : Z) (t : mty) : mty :=
+  match t with
+  | MUnbound (P l _ el ec) n a e => MUnbound (P l c el ec) n a e
+  | MUnion (P l _ el ec) i => MUnion (P l c el ec) i
+  end.
+
+(* set_block_lines: first.lineno/col_offset, last.end_lineno/end_col_offset of the *ast* statements; when the first
+   statement became a Decorator its (normalised) line/column are copied *)
 Fixpoint last_spos (s0 : stmt) (ss : stmts) : pos :=
   match ss with SNil => spos s0 | SCons s ss' => last_spos s ss' end.
-Definition block_pos (s0 : stmt) (ss : stmts) : pos := span (spos s0) (last_spos s0 ss).
+Definition first_pos (s0 : stmt) : pos :=
+  match s0 with
+  | SDef _ _ _ (ECons d _) _ _ _ => epos d
+  | _ => spos s0
+  end.
+Definition block_pos (s0 : stmt) (ss : stmts) : pos := span (first_pos s0) (last_spos s0 ss).
+
+Definition mk_funcdef (p : pos) (name : string) (args : list marg) (decos : list mexpr) (dpos : pos) (b : mblock) : mstmt :=
+  let f := MFuncDef p name (force_pos_only (special_function_elide_names name) args) b in
+  match decos with [] => f | _ => MDecorator (span dpos p) decos f end.
 
 Fixpoint conv_s (s : stmt) {struct s} : mstmt :=
   match s with
   | SClass p name bases kws decos b0 bs =>
       MClassDef p name (MBlock (block_pos b0 bs) false (conv_s b0 :: conv_ss bs)) (conv_es bases)
         (find_metaclass (conv_ckws kws)) (conv_ckws kws) (conv_es decos)
-  | SDef p name ps b0 bs =>
-      MFuncDef p name (force_pos_only (special_function_elide_names name) (conv_params ps))
+  | SDef p name ps decos _ b0 bs =>
+      (* deco.set_line(first.lineno, first.col_offset, end_line, end_column) *)
+      mk_funcdef p name (conv_params ps) (conv_es decos) (match decos with ECons d _ => epos d | ENil => p end)
         (MBlock (block_pos b0 bs) false (conv_s b0 :: conv_ss bs))
   | SExpr p e => MExprStmt p (conv_e e)
   | SAssign p t v => MAssign p (conv_es t) (conv_e v) false
-  | SReturn p v => MReturn p (match v with Some e => Some (conv_e e) | None => None end)
+  (* visit_AnnAssign: without a value the rvalue is a TempNode with set_line(rvalue, n) *)
+  | SAnnAssign p t a v =>
+      MAnnAssign p [conv_e t] (match v with ONone => MTemp p | OSome e => conv_e e end)
+        (set_col (p_col (typos a)) (conv_ty (p_line p) a)) true
+  | SAugAssign p op t v => MOpAssign p (binop_str op) (conv_e t) (conv_e v)
+  | SReturn p v => MReturn p (conv_oe v)
   | SPass p => MPass p
+  | SBreak p => MBreak p
+  | SContinue p => MContinue p
+  | SGlobal p ns => MGlobal p ns
+  | SNonlocal p ns => MNonlocal p ns
+  (* visit_Delete: several targets become a TupleExpr with tup.set_line(n.lineno): column -1, no end *)
+  | SDel p t0 ts => MDel p (match ts with ENil => conv_e t0 | _ => MTuple (PN (p_line p) (-1)) (conv_e t0 :: conv_es ts) end)
+  | SAssert p t m => MAssert p (conv_e t) (conv_oe m)
+  | SRaise p e c => MRaise p (conv_oe e) (conv_oe c)
+  | SImport p ns => MImport p ns
+  | SImportFrom p lv m ns => MImportFrom p m lv ns
+  | SImportAll p lv m => MImportAll p m lv
   | SWhile p t b0 bs o => MWhile p (conv_e t) (MBlock (block_pos b0 bs) false (conv_s b0 :: conv_ss bs)) (as_block o)
   | SFor p t i b0 bs o => MFor p (conv_e t) (conv_e i) (MBlock (block_pos b0 bs) false (conv_s b0 :: conv_ss bs)) (as_block o)
   | SIf p t b0 bs el o => MIf p (conv_e t) (MBlock (block_pos b0 bs) false (conv_s b0 :: conv_ss bs)) (conv_elifs el (as_block o))
+  | SWith p items b0 bs =>
+      MWith p (conv_wexprs items) (conv_wtargets items) (MBlock (block_pos b0 bs) false (conv_s b0 :: conv_ss bs))
+  | STry p b0 bs hs o f =>
+      MTry p (MBlock (block_pos b0 bs) false (conv_s b0 :: conv_ss bs)) (conv_hvars hs) (conv_htypes hs) (conv_hbodies hs)
+        (as_block o) (as_block f)
   end
 with conv_ss (ss : stmts) {struct ss} : list mstmt :=
   match ss with SNil => [] | SCons s ss' => conv_s s :: conv_ss ss' end
@@ -257,16 +409,32 @@ with conv_elifs (el : elifs) (o : option mblock) {struct el} : option mblock :=
   | LNil => o
   | LCons p t b0 bs el' =>
       Some (MBlock p false [MIf p (conv_e t) (MBlock (block_pos b0 bs) false (conv_s b0 :: conv_ss bs)) (conv_elifs el' o)])
+  end
+(* visit_Try: the NameExpr of `as name` gets the position of the whole handler *)
+with conv_hvars (hs : handlers) {struct hs} : list (option (string * pos)) :=
+  match hs with
+  | HNil => []
+  | HCons hp _ nm _ _ r => (match nm with Some (n, _) => Some (n, hp) | None => None end) :: conv_hvars r
+  end
+with conv_htypes (hs : handlers) {struct hs} : list (option mexpr) :=
+  match hs with HNil => [] | HCons _ ty _ _ _ r => conv_oe ty :: conv_htypes r end
+with conv_hbodies (hs : handlers) {struct hs} : list mblock :=
+  match hs with
+  | HNil => []
+  | HCons _ _ _ b0 bs r => MBlock (block_pos b0 bs) false (conv_s b0 :: conv_ss bs) :: conv_hbodies r
   end.
 
 Definition convert (ss : stmts) : list mstmt := conv_ss ss.
 
 (* ================================================================ (ii) the stream *)
 Inductive tag :=
-| LITERAL_NONE | LITERAL_INT | LITERAL_STR | LIST_GEN | LIST_INT | LOCATION | END_TAG
+| LITERAL_NONE | LITERAL_INT | LITERAL_STR | LIST_GEN | LIST_INT | DICT_STR_GEN | LOCATION | END_TAG
 | EXPR_STMT | CALL_EXPR | NAME_EXPR | STR_EXPR | MEMBER_EXPR | OP_EXPR | INT_EXPR | IF_STMT | ASSIGNMENT_STMT
 | TUPLE_EXPR | BLOCK | LIST_EXPR | RETURN_STMT | WHILE_STMT | COMPARISON_EXPR | BOOL_OP_EXPR | PASS_STMT | UNARY_EXPR
-| FOR_STMT | CONDITIONAL_EXPR | FUNC_DEF_STMT | CLASS_DEF | DICT_STR_GEN.
+| FOR_STMT | CONDITIONAL_EXPR | FUNC_DEF_STMT | CLASS_DEF | DECORATOR
+| SET_EXPR | DICT_EXPR | INDEX_EXPR | SLICE_EXPR | STAR_EXPR | LAMBDA_EXPR
+| OPERATOR_ASSIGNMENT_STMT | BREAK_STMT | CONTINUE_STMT | GLOBAL_DECL | NONLOCAL_DECL | DEL_STMT | ASSERT_STMT | RAISE_STMT
+| IMPORT | IMPORT_FROM | IMPORT_ALL | WITH_STMT | TRY_STMT | TEMP_NODE | UNBOUND_TYPE | UNION_TYPE.
 
 (* primitive reads of librt.internal: read_tag / read_int / read_str / read_bool *)
 Inductive tok := T (t : tag) | I (z : Z) | S (s : string) | B (b : bool).
@@ -275,12 +443,18 @@ Definition loc_k (p : pos) (k : list tok) : list tok :=
   T LOCATION :: I (p_line p) :: I (p_col p) :: I (p_eline p - p_line p) :: I (p_ecol p - p_col p) :: k.
 Definition int_k (z : Z) (k : list tok) := T LITERAL_INT :: I z :: k.
 Definition str_k (s : string) (k : list tok) := T LITERAL_STR :: S s :: k.
+Definition nat_k (n : nat) (k : list tok) := I (Z.of_nat n) :: k.
 
 Fixpoint len_es (es : exprs) : nat := match es with ENil => O | ECons _ es' => Datatypes.S (len_es es') end.
 Fixpoint len_args (a : args) : nat := match a with ANil => O | ACons _ _ a' => Datatypes.S (len_args a') end.
 Fixpoint len_cmps (c : cmps) : nat := match c with CNil => O | CCons _ _ c' => Datatypes.S (len_cmps c') end.
+Fixpoint len_ditems (d : ditems) : nat := match d with DNil => O | DCons _ _ r => Datatypes.S (len_ditems r) end.
+Fixpoint len_params (ps : params) : nat := match ps with PNil => O | PCons _ _ _ _ _ r => Datatypes.S (len_params r) end.
 Fixpoint len_ss (ss : stmts) : nat := match ss with SNil => O | SCons _ ss' => Datatypes.S (len_ss ss') end.
 Fixpoint len_el (el : elifs) : nat := match el with LNil => O | LCons _ _ _ _ el' => Datatypes.S (len_el el') end.
+Fixpoint len_ckws (k : ckws) : nat := match k with KNil => O | KCons _ _ r => Datatypes.S (len_ckws r) end.
+Fixpoint len_witems (w : witems) : nat := match w with WNil => O | WCons _ _ r => Datatypes.S (len_witems r) end.
+Fixpoint len_hs (h : handlers) : nat := match h with HNil => O | HCons _ _ _ _ _ r => Datatypes.S (len_hs r) end.
 
 Fixpoint kinds_k (a : args) (k : list tok) : list tok :=
   match a with ANil => k | ACons kd _ a' => I (argkind_idx (kind_of kd)) :: kinds_k a' k end.
@@ -291,6 +465,14 @@ Fixpoint names_k (a : args) (k : list tok) : list tok :=
   end.
 Fixpoint cmpidx_k (c : cmps) (k : list tok) : list tok :=
   match c with CNil => k | CCons o _ c' => I (cmpop_idx o) :: cmpidx_k c' k end.
+Fixpoint strs_k (l : list string) (k : list tok) : list tok :=
+  match l with [] => k | s :: l' => str_k s (strs_k l' k) end.
+Fixpoint aliases_k (l : list (string * option string)) (k : list tok) : list tok :=
+  match l with
+  | [] => k
+  | (n, Some a) :: l' => str_k n (B true :: str_k a (aliases_k l' k))
+  | (n, None) :: l' => str_k n (B false :: aliases_k l' k)
+  end.
 
 (* emit_e e k = the tokens of e followed by k *)
 Fixpoint emit_e (e : expr) (k : list tok) {struct e} : list tok :=
@@ -300,89 +482,170 @@ Fixpoint emit_e (e : expr) (k : list tok) {struct e} : list tok :=
   | EStr p s => T STR_EXPR :: str_k s (loc_k p (T END_TAG :: k))
   | EAttr p e a => T MEMBER_EXPR :: emit_e e (str_k a (loc_k p (T END_TAG :: k)))
   | ECall p f a =>
-      T CALL_EXPR :: emit_e f (T LIST_GEN :: I (Z.of_nat (len_args a)) :: emit_args a
-        (T LIST_INT :: I (Z.of_nat (len_args a)) :: kinds_k a
-          (T LIST_GEN :: I (Z.of_nat (len_args a)) :: names_k a (loc_k p (T END_TAG :: k)))))
+      T CALL_EXPR :: emit_e f (T LIST_GEN :: nat_k (len_args a) (emit_args a
+        (T LIST_INT :: nat_k (len_args a) (kinds_k a
+          (T LIST_GEN :: nat_k (len_args a) (names_k a (loc_k p (T END_TAG :: k))))))))
   | EBin p op l r => T OP_EXPR :: int_k (binop_idx op) (emit_e l (emit_e r (T END_TAG :: k)))
   | EUnary p op e => T UNARY_EXPR :: int_k (unop_idx op) (emit_e e (loc_k p (T END_TAG :: k)))
   | ECompare p l c =>
-      T COMPARISON_EXPR :: emit_e l (T LIST_INT :: I (Z.of_nat (len_cmps c)) :: cmpidx_k c
-        (T LIST_GEN :: I (Z.of_nat (len_cmps c)) :: emit_cmps c (loc_k p (T END_TAG :: k))))
+      T COMPARISON_EXPR :: emit_e l (T LIST_INT :: nat_k (len_cmps c) (cmpidx_k c
+        (T LIST_GEN :: nat_k (len_cmps c) (emit_cmps c (loc_k p (T END_TAG :: k))))))
   | EBoolOp p op e1 e2 rest =>
-      T BOOL_OP_EXPR :: int_k (boolop_idx op) (T LIST_GEN :: I (Z.of_nat (Datatypes.S (Datatypes.S (len_es rest)))) ::
-        emit_e e1 (emit_e e2 (emit_es rest (loc_k p (T END_TAG :: k)))))
+      T BOOL_OP_EXPR :: int_k (boolop_idx op) (T LIST_GEN :: nat_k (Datatypes.S (Datatypes.S (len_es rest)))
+        (emit_e e1 (emit_e e2 (emit_es rest (loc_k p (T END_TAG :: k))))))
   | EIfExp p t b o => T CONDITIONAL_EXPR :: emit_e b (emit_e t (emit_e o (loc_k p (T END_TAG :: k))))
-  | ETuple p es => T TUPLE_EXPR :: T LIST_GEN :: I (Z.of_nat (len_es es)) :: emit_es es (loc_k p (T END_TAG :: k))
-  | EList p es => T LIST_EXPR :: T LIST_GEN :: I (Z.of_nat (len_es es)) :: emit_es es (loc_k p (T END_TAG :: k))
+  | ETuple p es => T TUPLE_EXPR :: T LIST_GEN :: nat_k (len_es es) (emit_es es (loc_k p (T END_TAG :: k)))
+  | EList p es => T LIST_EXPR :: T LIST_GEN :: nat_k (len_es es) (emit_es es (loc_k p (T END_TAG :: k)))
+  | ESet p es => T SET_EXPR :: T LIST_GEN :: nat_k (len_es es) (emit_es es (loc_k p (T END_TAG :: k)))
+  | EDict p it =>
+      T DICT_EXPR :: T LIST_GEN :: nat_k (len_ditems it) (emit_dkeys it
+        (T LIST_GEN :: nat_k (len_ditems it) (emit_dvals it (loc_k p (T END_TAG :: k)))))
+  | ESubscript p v i => T INDEX_EXPR :: emit_e v (emit_e i (loc_k p (T END_TAG :: k)))
+  | ESlice p a b c => T SLICE_EXPR :: emit_oe a (emit_oe b (emit_oe c (loc_k p (T END_TAG :: k))))
+  | EStar p e => T STAR_EXPR :: emit_e e (loc_k p (T END_TAG :: k))
+  | ELambda p ps b =>
+      T LAMBDA_EXPR :: T LIST_GEN :: nat_k (len_params ps) (emit_params ps
+        (T BLOCK :: T LIST_GEN :: I 1 :: B false :: T RETURN_STMT :: B true :: emit_e b (loc_k (epos b) (T END_TAG ::
+          T END_TAG :: loc_k p (T END_TAG :: k)))))
   end
 with emit_es (es : exprs) (k : list tok) {struct es} : list tok :=
   match es with ENil => k | ECons e es' => emit_e e (emit_es es' k) end
 with emit_args (a : args) (k : list tok) {struct a} : list tok :=
   match a with ANil => k | ACons _ e a' => emit_e e (emit_args a' k) end
 with emit_cmps (c : cmps) (k : list tok) {struct c} : list tok :=
-  match c with CNil => k | CCons _ e c' => emit_e e (emit_cmps c' k) end.
-
-(* a block: BLOCK LIST_GEN n is_unreachable stmts END_TAG   (no location when non-empty; is_unreachable is computed
-   by the serializer from version/platform tests -- none in the fragment) *)
-Fixpoint len_params (ps : params) : nat := match ps with PNil => O | PCons _ _ _ _ _ r => Datatypes.S (len_params r) end.
+  match c with CNil => k | CCons _ e c' => emit_e e (emit_cmps c' k) end
+(* optional expression: has_x [x] *)
+with emit_oe (o : oexpr) (k : list tok) {struct o} : list tok :=
+  match o with ONone => B false :: k | OSome e => B true :: emit_e e k end
+with emit_dkeys (d : ditems) (k : list tok) {struct d} : list tok :=
+  match d with DNil => k | DCons ky _ r => emit_oe ky (emit_dkeys r k) end
+with emit_dvals (d : ditems) (k : list tok) {struct d} : list tok :=
+  match d with DNil => k | DCons _ v r => emit_e v (emit_dvals r k) end
 (* one parameter: name, kind, has_type(false), has_default [default], pos_only, location (no END_TAG) *)
-Fixpoint emit_params (ps : params) (k : list tok) : list tok :=
+with emit_params (ps : params) (k : list tok) {struct ps} : list tok :=
   match ps with
   | PNil => k
   | PCons _ sp n kd d r =>
-      str_k n (int_k (argkind_idx (param_kind kd d)) (B false ::
-        match d with
-        | Some e => B true :: emit_e e (B (emit_pos_only kd n) :: loc_k sp (emit_params r k))
-        | None => B false :: B (emit_pos_only kd n) :: loc_k sp (emit_params r k)
-        end))
+      str_k n (int_k (argkind_idx (param_kind kd (has_default d))) (B false ::
+        emit_oe d (B (emit_pos_only kd n) :: loc_k sp (emit_params r k))))
   end.
 
-Fixpoint len_ckws (k : ckws) : nat := match k with KNil => O | KCons _ _ r => Datatypes.S (len_ckws r) end.
+Fixpoint len_tys (a : tys) : nat := match a with TNil => O | TCons _ r => Datatypes.S (len_tys r) end.
+(* UNBOUND_TYPE name LIST_GEN args empty_tuple_index original_str_expr(None) original_str_fallback(None) loc END
+   UNION_TYPE LIST_GEN items uses_pep604_syntax None None is_evaluated loc END *)
+Fixpoint emit_ty (t : ty) (k : list tok) {struct t} : list tok :=
+  match t with
+  | TyName p n => T UNBOUND_TYPE :: str_k n (T LIST_GEN :: I 0 :: B false :: T LITERAL_NONE :: T LITERAL_NONE :: loc_k p (T END_TAG :: k))
+  | TyNone p => T UNBOUND_TYPE :: str_k "None" (T LIST_GEN :: I 0 :: B false :: T LITERAL_NONE :: T LITERAL_NONE :: loc_k p (T END_TAG :: k))
+  | TySub p b tup a =>
+      T UNBOUND_TYPE :: str_k b (T LIST_GEN :: nat_k (len_tys a) (emit_tys a
+        (B (tup && match a with TNil => true | _ => false end) :: T LITERAL_NONE :: T LITERAL_NONE :: loc_k p (T END_TAG :: k))))
+  | TyUnion p l r =>
+      T UNION_TYPE :: T LIST_GEN :: I 2 :: emit_ty l (emit_ty r
+        (B true :: T LITERAL_NONE :: T LITERAL_NONE :: B true :: loc_k p (T END_TAG :: k)))
+  end
+with emit_tys (a : tys) (k : list tok) {struct a} : list tok :=
+  match a with TNil => k | TCons t ts => emit_ty t (emit_tys ts k) end.
+
 Fixpoint emit_ckws (kw : ckws) (k : list tok) : list tok :=
   match kw with KNil => k | KCons n e r => str_k n (emit_e e (emit_ckws r k)) end.
+Fixpoint emit_witems (w : witems) (k : list tok) : list tok :=
+  match w with WNil => k | WCons c t r => emit_e c (emit_oe t (emit_witems r k)) end.
 
 Definition blk (n : nat) (inner : list tok) : list tok := T BLOCK :: T LIST_GEN :: I (Z.of_nat n) :: B false :: inner.
+Definition flags_k (top : bool) (k : list tok) : list tok := int_k (if top then 1 else 0) k.
 
-Fixpoint emit_s (s : stmt) (k : list tok) {struct s} : list tok :=
+(* top = not inside a function body (import flags bit 0: is_top_level) *)
+Fixpoint emit_s (top : bool) (s : stmt) (k : list tok) {struct s} : list tok :=
   match s with
   | SClass p name bases kws decos b0 bs =>
-      (* name, body, bases, decorators, has_type_params, keywords, location *)
-      T CLASS_DEF :: str_k name (blk (Datatypes.S (len_ss bs)) (emit_s b0 (emit_ss bs (T END_TAG ::
-        T LIST_GEN :: I (Z.of_nat (len_es bases)) :: emit_es bases
-          (T LIST_GEN :: I (Z.of_nat (len_es decos)) :: emit_es decos
-            (B false :: T DICT_STR_GEN :: I (Z.of_nat (len_ckws kws)) :: emit_ckws kws (loc_k p (T END_TAG :: k))))))))
-  | SDef p name ps b0 bs =>
-      (* name, parameters, body, is_async, has_type_params, has_return_type, location *)
-      T FUNC_DEF_STMT :: str_k name (T LIST_GEN :: I (Z.of_nat (len_params ps)) :: emit_params ps
-        (blk (Datatypes.S (len_ss bs)) (emit_s b0 (emit_ss bs (T END_TAG ::
-          B false :: B false :: B false :: loc_k p (T END_TAG :: k))))))
+      T CLASS_DEF :: str_k name (blk (Datatypes.S (len_ss bs)) (emit_s top b0 (emit_ss top bs (T END_TAG ::
+        T LIST_GEN :: nat_k (len_es bases) (emit_es bases
+          (T LIST_GEN :: nat_k (len_es decos) (emit_es decos
+            (B false :: T DICT_STR_GEN :: nat_k (len_ckws kws) (emit_ckws kws (loc_k p (T END_TAG :: k)))))))))))
+  | SDef p name ps decos dp b0 bs =>
+      let fd k' :=
+        T FUNC_DEF_STMT :: str_k name (T LIST_GEN :: nat_k (len_params ps) (emit_params ps
+          (blk (Datatypes.S (len_ss bs)) (emit_s false b0 (emit_ss false bs (T END_TAG ::
+            B false :: B false :: B false :: loc_k p (T END_TAG :: k'))))))) in
+      match decos with
+      | ENil => fd k
+      | ECons d0 _ =>
+          T DECORATOR :: T LIST_GEN :: nat_k (len_es decos) (emit_es decos
+            (int_k (p_line dp) (int_k (p_col dp) (fd (T END_TAG :: k)))))
+      end
   | SExpr p e => T EXPR_STMT :: emit_e e (T END_TAG :: k)
   | SAssign p t v =>
-      T ASSIGNMENT_STMT :: T LIST_GEN :: I (Z.of_nat (len_es t)) :: emit_es t (emit_e v (B false :: B false :: loc_k p (T END_TAG :: k)))
-  | SReturn p v =>
-      T RETURN_STMT :: match v with Some e => B true :: emit_e e (loc_k p (T END_TAG :: k)) | None => B false :: loc_k p (T END_TAG :: k) end
+      T ASSIGNMENT_STMT :: T LIST_GEN :: nat_k (len_es t) (emit_es t (emit_e v (B false :: B false :: loc_k p (T END_TAG :: k))))
+  | SAnnAssign p t a v =>
+      T ASSIGNMENT_STMT :: T LIST_GEN :: I 1 :: emit_e t
+        (match v with ONone => T TEMP_NODE :: T END_TAG :: B true :: emit_ty a (B true :: loc_k p (T END_TAG :: k))
+                    | OSome e => emit_e e (B true :: emit_ty a (B true :: loc_k p (T END_TAG :: k))) end)
+  | SAugAssign p op t v => T OPERATOR_ASSIGNMENT_STMT :: str_k (binop_str op) (emit_e t (emit_e v (loc_k p (T END_TAG :: k))))
+  | SReturn p v => T RETURN_STMT :: emit_oe v (loc_k p (T END_TAG :: k))
   | SPass p => T PASS_STMT :: loc_k p (T END_TAG :: k)
+  | SBreak p => T BREAK_STMT :: loc_k p (T END_TAG :: k)
+  | SContinue p => T CONTINUE_STMT :: loc_k p (T END_TAG :: k)
+  | SGlobal p ns => T GLOBAL_DECL :: int_k (Z.of_nat (List.length ns)) (strs_k ns (loc_k p (T END_TAG :: k)))
+  | SNonlocal p ns => T NONLOCAL_DECL :: int_k (Z.of_nat (List.length ns)) (strs_k ns (loc_k p (T END_TAG :: k)))
+  | SDel p t0 ts =>
+      T DEL_STMT :: match ts with
+                    | ENil => emit_e t0 (loc_k p (T END_TAG :: k))
+                    | _ => T TUPLE_EXPR :: T LIST_GEN :: nat_k (Datatypes.S (len_es ts))
+                             (emit_e t0 (emit_es ts (loc_k p (T END_TAG :: loc_k p (T END_TAG :: k)))))
+                    end
+  | SAssert p t m => T ASSERT_STMT :: emit_e t (emit_oe m (loc_k p (T END_TAG :: k)))
+  | SRaise p e c => T RAISE_STMT :: emit_oe e (emit_oe c (loc_k p (T END_TAG :: k)))
+  | SImport p ns => T IMPORT :: int_k (Z.of_nat (List.length ns)) (aliases_k ns (loc_k p (flags_k top (T END_TAG :: k))))
+  | SImportFrom p lv m ns =>
+      T IMPORT_FROM :: int_k lv (str_k m (int_k (Z.of_nat (List.length ns)) (aliases_k ns (loc_k p (flags_k top (T END_TAG :: k))))))
+  | SImportAll p lv m => T IMPORT_ALL :: str_k m (int_k lv (loc_k p (flags_k top (T END_TAG :: k))))
   | SWhile p t b0 bs o =>
-      T WHILE_STMT :: emit_e t (blk (Datatypes.S (len_ss bs)) (emit_s b0 (emit_ss bs (T END_TAG ::
-        blk (len_ss o) (emit_ss o (T END_TAG :: loc_k p (T END_TAG :: k)))))))
+      T WHILE_STMT :: emit_e t (blk (Datatypes.S (len_ss bs)) (emit_s top b0 (emit_ss top bs (T END_TAG ::
+        blk (len_ss o) (emit_ss top o (T END_TAG :: loc_k p (T END_TAG :: k)))))))
   | SFor p t i b0 bs o =>
-      T FOR_STMT :: emit_e t (emit_e i (blk (Datatypes.S (len_ss bs)) (emit_s b0 (emit_ss bs (T END_TAG ::
-        blk (len_ss o) (emit_ss o (T END_TAG :: B false :: loc_k p (T END_TAG :: k))))))))
+      T FOR_STMT :: emit_e t (emit_e i (blk (Datatypes.S (len_ss bs)) (emit_s top b0 (emit_ss top bs (T END_TAG ::
+        blk (len_ss o) (emit_ss top o (T END_TAG :: B false :: loc_k p (T END_TAG :: k))))))))
   | SIf p t b0 bs el o =>
-      T IF_STMT :: emit_e t (blk (Datatypes.S (len_ss bs)) (emit_s b0 (emit_ss bs (T END_TAG ::
-        int_k (Z.of_nat (len_el el)) (emit_elifs el
-        (match o with
-         | SNil => B false :: loc_k p (T END_TAG :: k)
-         | SCons s ss => B true :: blk (Datatypes.S (len_ss ss)) (emit_s s (emit_ss ss (T END_TAG :: loc_k p (T END_TAG :: k))))
-         end))))))
+      T IF_STMT :: emit_e t (blk (Datatypes.S (len_ss bs)) (emit_s top b0 (emit_ss top bs (T END_TAG ::
+        int_k (Z.of_nat (len_el el)) (emit_elifs top el (emit_oblk top o (loc_k p (T END_TAG :: k))))))))
+  | SWith p items b0 bs =>
+      T WITH_STMT :: int_k (Z.of_nat (len_witems items)) (emit_witems items
+        (blk (Datatypes.S (len_ss bs)) (emit_s top b0 (emit_ss top bs (T END_TAG :: B false :: loc_k p (T END_TAG :: k))))))
+  | STry p b0 bs hs o f =>
+      T TRY_STMT :: blk (Datatypes.S (len_ss bs)) (emit_s top b0 (emit_ss top bs (T END_TAG ::
+        int_k (Z.of_nat (len_hs hs)) (emit_htypes hs (emit_hvars hs (emit_hbodies top hs
+          (emit_oblk top o (emit_oblk top f (B false :: loc_k p (T END_TAG :: k)))))))))) 
   end
-with emit_ss (ss : stmts) (k : list tok) {struct ss} : list tok :=
-  match ss with SNil => k | SCons s ss' => emit_s s (emit_ss ss' k) end
-with emit_elifs (el : elifs) (k : list tok) {struct el} : list tok :=
-  match el with LNil => k | LCons _ t b0 bs el' => emit_e t (blk (Datatypes.S (len_ss bs)) (emit_s b0 (emit_ss bs (T END_TAG :: emit_elifs el' k)))) end.
+with emit_ss (top : bool) (ss : stmts) (k : list tok) {struct ss} : list tok :=
+  match ss with SNil => k | SCons s ss' => emit_s top s (emit_ss top ss' k) end
+(* has_x [block] *)
+with emit_oblk (top : bool) (o : stmts) (k : list tok) {struct o} : list tok :=
+  match o with
+  | SNil => B false :: k
+  | SCons s ss => B true :: blk (Datatypes.S (len_ss ss)) (emit_s top s (emit_ss top ss (T END_TAG :: k)))
+  end
+with emit_elifs (top : bool) (el : elifs) (k : list tok) {struct el} : list tok :=
+  match el with
+  | LNil => k
+  | LCons _ t b0 bs el' => emit_e t (blk (Datatypes.S (len_ss bs)) (emit_s top b0 (emit_ss top bs (T END_TAG :: emit_elifs top el' k))))
+  end
+with emit_htypes (hs : handlers) (k : list tok) {struct hs} : list tok :=
+  match hs with HNil => k | HCons _ ty _ _ _ r => emit_oe ty (emit_htypes r k) end
+with emit_hvars (hs : handlers) (k : list tok) {struct hs} : list tok :=
+  match hs with
+  | HNil => k
+  | HCons _ _ None _ _ r => B false :: emit_hvars r k
+  | HCons _ _ (Some (n, np)) _ _ r => B true :: str_k n (loc_k np (emit_hvars r k))
+  end
+with emit_hbodies (top : bool) (hs : handlers) (k : list tok) {struct hs} : list tok :=
+  match hs with
+  | HNil => k
+  | HCons _ _ _ b0 bs r => blk (Datatypes.S (len_ss bs)) (emit_s top b0 (emit_ss top bs (T END_TAG :: emit_hbodies top r k)))
+  end.
 
 (* file = statement count + statements *)
-Definition emit (ss : stmts) : list tok := int_k (Z.of_nat (len_ss ss)) (emit_ss ss []).
+Definition emit (ss : stmts) : list tok := int_k (Z.of_nat (len_ss ss)) (emit_ss true ss []).
 
 (* ================================================================ (ii') nativeparse: the reader *)
 Definition rd (A : Type) := list tok -> option (A * list tok).
@@ -395,6 +658,13 @@ Fixpoint read_n {A} (r : rd A) (n : nat) (ts : list tok) : option (list A * list
       | Some (a, ts1) => match read_n r n' ts1 with Some (l, ts2) => Some (a :: l, ts2) | None => None end
       | None => None
       end
+  end.
+
+Definition read_opt {A} (r : rd A) : rd (option A) := fun ts =>
+  match ts with
+  | B true :: ts1 => match r ts1 with Some (a, ts2) => Some (Some a, ts2) | None => None end
+  | B false :: ts1 => Some (None, ts1)
+  | _ => None
   end.
 
 Definition read_loc : rd pos := fun ts =>
@@ -413,6 +683,20 @@ Definition read_name : rd (option string) := fun ts =>
   end.
 Definition read_op (table : list string) : rd string := fun ts =>
   match ts with I z :: ts' => match nth_error table (Z.to_nat z) with Some s => Some (s, ts') | None => None end | _ => None end.
+Definition read_strtok : rd string := fun ts =>
+  match ts with T LITERAL_STR :: S s :: ts' => Some (s, ts') | _ => None end.
+Definition read_alias : rd (string * option string) := fun ts =>
+  match ts with
+  | T LITERAL_STR :: S n :: B true :: T LITERAL_STR :: S a :: ts' => Some ((n, Some a), ts')
+  | T LITERAL_STR :: S n :: B false :: ts' => Some ((n, None), ts')
+  | _ => None
+  end.
+Definition read_ovar : rd (option (string * pos)) := fun ts =>
+  match ts with
+  | B true :: T LITERAL_STR :: S n :: ts1 => match read_loc ts1 with Some (p, ts2) => Some (Some (n, p), ts2) | None => None end
+  | B false :: ts1 => Some (None, ts1)
+  | _ => None
+  end.
 
 (* BOOL_OP_EXPR: values[-1] is the seed; for val in values[-2::-1]: OpExpr(op, val, result) positioned from val to last;
    finally read_loc overwrites the position of the outermost *)
@@ -425,11 +709,25 @@ Definition set_pos_op (p : pos) (e : mexpr) : mexpr :=
   match e with MOp _ op l r => MOp p op l r | _ => e end.
 Fixpoint split_last {A} (a : A) (l : list A) : list A * A :=
   match l with [] => ([], a) | b :: l' => let '(i, x) := split_last b l' in (a :: i, x) end.
+Definition mk_boolop (p : pos) (op : string) (v0 v1 : mexpr) (vs : list mexpr) : mexpr :=
+  let '(init, last) := split_last v0 (v1 :: vs) in set_pos_op p (nest_bool op init last).
 
 Definition finish {A} (a : A) (ts : list tok) : option (A * list tok) :=
   match ts with T END_TAG :: ts' => Some (a, ts') | _ => None end.
 Definition loc_finish {A} (mk : pos -> A) (ts : list tok) : option (A * list tok) :=
   match read_loc ts with Some (p, ts') => finish (mk p) ts' | None => None end.
+
+(* read_parameters (one item) *)
+Definition read_param_with (re : rd mexpr) : rd marg := fun ts =>
+  match ts with
+  | T LITERAL_STR :: S n :: T LITERAL_INT :: I kd :: B false :: ts1 =>
+      match nth_error ARG_KINDS (Z.to_nat kd), read_opt re ts1 with
+      | Some k, Some (d, B po :: ts2) =>
+          match read_loc ts2 with Some (p, ts3) => Some (MArg p p n k d po, ts3) | None => None end
+      | _, _ => None
+      end
+  | _ => None    (* has_type = true: annotated parameter, outside the fragment *)
+  end.
 
 Fixpoint read_expr (fuel : nat) (ts : list tok) {struct fuel} : option (mexpr * list tok) :=
   match fuel with
@@ -502,9 +800,7 @@ Fixpoint read_expr (fuel : nat) (ts : list tok) {struct fuel} : option (mexpr * 
         match read_op bool_ops ts1 with
         | Some (op, T LIST_GEN :: I n :: ts2) =>
           match read_n (read_expr f) (Z.to_nat n) ts2 with
-          | Some (v0 :: v1 :: vs, ts3) =>
-              let '(init, last) := split_last v0 (v1 :: vs) in
-              loc_finish (fun p => set_pos_op p (nest_bool op init last)) ts3
+          | Some (v0 :: v1 :: vs, ts3) => loc_finish (fun p => mk_boolop p op v0 v1 vs) ts3
           | _ => None   (* assert len(values) >= 2 *)
           end
         | _ => None
@@ -532,6 +828,84 @@ Fixpoint read_expr (fuel : nat) (ts : list tok) {struct fuel} : option (mexpr * 
         | Some (items, ts2) => loc_finish (fun p => MList p items) ts2
         | None => None
         end
+    | T SET_EXPR :: T LIST_GEN :: I n :: ts1 =>
+        match read_n (read_expr f) (Z.to_nat n) ts1 with
+        | Some (items, ts2) => loc_finish (fun p => MSet p items) ts2
+        | None => None
+        end
+    | T DICT_EXPR :: T LIST_GEN :: I n :: ts1 =>
+        match read_n (read_opt (read_expr f)) (Z.to_nat n) ts1 with
+        | Some (keys, T LIST_GEN :: I m :: ts2) =>
+          match read_n (read_expr f) (Z.to_nat m) ts2 with
+          | Some (vals, ts3) => loc_finish (fun p => MDict p (combine keys vals)) ts3
+          | None => None
+          end
+        | _ => None
+        end
+    | T INDEX_EXPR :: ts1 =>
+        match read_expr f ts1 with
+        | Some (base, ts2) =>
+          match read_expr f ts2 with
+          | Some (index, ts3) => loc_finish (fun p => MIndex p base index) ts3
+          | None => None
+          end
+        | None => None
+        end
+    | T SLICE_EXPR :: ts1 =>
+        match read_opt (read_expr f) ts1 with
+        | Some (a, ts2) =>
+          match read_opt (read_expr f) ts2 with
+          | Some (b, ts3) =>
+            match read_opt (read_expr f) ts3 with
+            | Some (c, ts4) => loc_finish (fun p => MSlice p a b c) ts4
+            | None => None
+            end
+          | None => None
+          end
+        | None => None
+        end
+    | T STAR_EXPR :: ts1 =>
+        match read_expr f ts1 with
+        | Some (e, ts2) => loc_finish (fun p => MStar p e) ts2
+        | None => None
+        end
+    (* TEMP_NODE: a fresh TempNode (Context defaults: line -1, column -1, no end) *)
+    | T TEMP_NODE :: ts1 => finish (MTemp (PN (-1) (-1))) ts1
+    (* LAMBDA_EXPR: parameters, then read_block.  The serializer always writes a block of exactly one RETURN_STMT with a
+       value; the reader model is restricted to that shape (block position = from its single statement) *)
+    | T LAMBDA_EXPR :: T LIST_GEN :: I n :: ts1 =>
+        match read_n (read_param_with (read_expr f)) (Z.to_nat n) ts1 with
+        | Some (args, T BLOCK :: T LIST_GEN :: I 1 :: B false :: T RETURN_STMT :: B true :: ts2) =>
+          match read_expr f ts2 with
+          | Some (body, ts3) =>
+            match read_loc ts3 with
+            | Some (rp, T END_TAG :: T END_TAG :: ts4) => loc_finish (fun p => MLambda p args (span rp rp) rp body) ts4
+            | _ => None
+            end
+          | None => None
+          end
+        | _ => None
+        end
+    | _ => None
+    end
+  end.
+
+(* read_type, restricted to the two tags of the sublanguage *)
+Fixpoint read_ty (fuel : nat) (ts : list tok) {struct fuel} : option (mty * list tok) :=
+  match fuel with
+  | O => None
+  | Datatypes.S f =>
+    match ts with
+    | T UNBOUND_TYPE :: T LITERAL_STR :: S name :: T LIST_GEN :: I n :: ts1 =>
+        match read_n (read_ty f) (Z.to_nat n) ts1 with
+        | Some (args, B eti :: T LITERAL_NONE :: T LITERAL_NONE :: ts2) => loc_finish (fun p => MUnbound p name args eti) ts2
+        | _ => None     (* original_str_expr: string annotations, outside the fragment *)
+        end
+    | T UNION_TYPE :: T LIST_GEN :: I n :: ts1 =>
+        match read_n (read_ty f) (Z.to_nat n) ts1 with
+        | Some (items, B true :: T LITERAL_NONE :: T LITERAL_NONE :: B true :: ts2) => loc_finish (fun p => mk_union p items) ts2
+        | _ => None
+        end
     | _ => None
     end
   end.
@@ -539,11 +913,10 @@ Fixpoint read_expr (fuel : nat) (ts : list tok) {struct fuel} : option (mexpr * 
 (* read_block / read_optional_block: location of a non-empty block from its first and last *converted* statement *)
 Fixpoint last_mspos (s0 : mstmt) (l : list mstmt) : pos :=
   match l with [] => mspos s0 | s :: l' => last_mspos s l' end.
+Definition mk_block_ne (u : bool) (s0 : mstmt) (l : list mstmt) : mblock :=
+  MBlock (span (mspos s0) (last_mspos s0 l)) u (s0 :: l).
 Definition mk_block (u : bool) (l : list mstmt) : option mblock :=
-  match l with
-  | [] => None
-  | s0 :: l' => Some (MBlock (span (mspos s0) (last_mspos s0 l')) u l)
-  end.
+  match l with [] => None | s0 :: l' => Some (mk_block_ne u s0 l') end.
 
 (* IF_STMT: elif clauses are re-nested bottom-up; the nested IfStmt/Block start at the elif *expression* *)
 Fixpoint build_elifs (l : list (mexpr * mblock)) (els : option mblock) : option mblock :=
@@ -554,6 +927,9 @@ Fixpoint build_elifs (l : list (mexpr * mblock)) (els : option mblock) : option 
       let p := match cur with Some c => span (mepos e) (mbpos c) | None => span (mepos e) (mbpos b) end in
       Some (MBlock p false [MIf p e b cur])
   end.
+
+(* "If rvalue is TempNode, copy location from AssignmentStmt" *)
+Definition fix_temp (p : pos) (rv : mexpr) : mexpr := match rv with MTemp _ => MTemp p | _ => rv end.
 
 Definition read_block_with (rs : rd mstmt) : rd mblock := fun ts =>
   match ts with
@@ -577,32 +953,21 @@ Definition read_optional_block_with (rs : rd mstmt) : rd (option mblock) := fun 
       end
   | _ => None
   end.
-Definition read_elif_with (re : rd mexpr) (rb : rd mblock) : rd (mexpr * mblock) := fun ts =>
-  match re ts with
-  | Some (e, ts1) => match rb ts1 with Some (b, ts2) => Some ((e, b), ts2) | None => None end
+Definition read_pair_with {A C} (ra : rd A) (rc : rd C) : rd (A * C) := fun ts =>
+  match ra ts with
+  | Some (a, ts1) => match rc ts1 with Some (c, ts2) => Some ((a, c), ts2) | None => None end
   | None => None
   end.
-
-(* read_parameters (one item) *)
-Definition read_param_with (re : rd mexpr) : rd marg := fun ts =>
-  match ts with
-  | T LITERAL_STR :: S n :: T LITERAL_INT :: I kd :: B false :: B true :: ts1 =>
-      match nth_error ARG_KINDS (Z.to_nat kd), re ts1 with
-      | Some k, Some (e, B po :: ts2) =>
-          match read_loc ts2 with Some (p, ts3) => Some (MArg p p n k (Some e) po, ts3) | None => None end
-      | _, _ => None
-      end
-  | T LITERAL_STR :: S n :: T LITERAL_INT :: I kd :: B false :: B false :: B po :: ts1 =>
-      match nth_error ARG_KINDS (Z.to_nat kd) with
-      | Some k => match read_loc ts1 with Some (p, ts2) => Some (MArg p p n k None po, ts2) | None => None end
-      | None => None
-      end
-  | _ => None    (* has_type = true: annotated parameter, outside the fragment *)
-  end.
-
 Definition read_ckw_with (re : rd mexpr) : rd (string * mexpr) := fun ts =>
   match ts with
   | T LITERAL_STR :: S n :: ts1 => match re ts1 with Some (e, ts2) => Some ((n, e), ts2) | None => None end
+  | _ => None
+  end.
+(* location, flags, END_TAG of the three import statements (the flags are decoded into is_top_level / is_unreachable /
+   is_mypy_only, which fastparse leaves to semanal_pass1: not part of the compared tree) *)
+Definition import_finish {A} (mk : pos -> A) (ts : list tok) : option (A * list tok) :=
+  match read_loc ts with
+  | Some (p, T LITERAL_INT :: I _ :: ts') => finish (mk p) ts'
   | _ => None
   end.
 
@@ -612,16 +977,16 @@ Fixpoint read_stmt (fuel : nat) (ts : list tok) {struct fuel} : option (mstmt * 
   | Datatypes.S f =>
     let read_block := read_block_with (read_stmt f) in
     let read_optional_block := read_optional_block_with (read_stmt f) in
-    let read_elif := read_elif_with (read_expr f) read_block in
+    let rexpr := read_expr f in
     match ts with
     | T CLASS_DEF :: T LITERAL_STR :: S name :: ts1 =>
         match read_block ts1 with
         | Some (b, T LIST_GEN :: I nb :: ts2) =>
-          match read_n (read_expr f) (Z.to_nat nb) ts2 with
+          match read_n rexpr (Z.to_nat nb) ts2 with
           | Some (bases, T LIST_GEN :: I nd :: ts3) =>
-            match read_n (read_expr f) (Z.to_nat nd) ts3 with
+            match read_n rexpr (Z.to_nat nd) ts3 with
             | Some (decos, B false :: T DICT_STR_GEN :: I nk :: ts4) =>
-              match read_n (read_ckw_with (read_expr f)) (Z.to_nat nk) ts4 with
+              match read_n (read_ckw_with rexpr) (Z.to_nat nk) ts4 with
               | Some (kws, ts5) => loc_finish (fun p => MClassDef p name b bases (find_metaclass kws) kws decos) ts5
               | None => None
               end
@@ -632,7 +997,7 @@ Fixpoint read_stmt (fuel : nat) (ts : list tok) {struct fuel} : option (mstmt * 
         | _ => None
         end
     | T FUNC_DEF_STMT :: T LITERAL_STR :: S name :: T LIST_GEN :: I n :: ts1 =>
-        match read_n (read_param_with (read_expr f)) (Z.to_nat n) ts1 with
+        match read_n (read_param_with rexpr) (Z.to_nat n) ts1 with
         | Some (args, ts2) =>
           match read_block ts2 with
           | Some (b, B false :: B false :: B false :: ts3) =>
@@ -641,29 +1006,98 @@ Fixpoint read_stmt (fuel : nat) (ts : list tok) {struct fuel} : option (mstmt * 
           end
         | None => None
         end
+    | T DECORATOR :: T LIST_GEN :: I n :: ts1 =>
+        match read_n rexpr (Z.to_nat n) ts1 with
+        | Some (decos, T LITERAL_INT :: I line :: T LITERAL_INT :: I col :: ts2) =>
+          match read_stmt f ts2 with
+          | Some (MFuncDef fp nm a b, ts3) =>
+              finish (MDecorator (P line col (p_eline fp) (p_ecol fp)) decos (MFuncDef fp nm a b)) ts3
+          | _ => None   (* assert isinstance(fdef, FuncDef) *)
+          end
+        | _ => None
+        end
     | T EXPR_STMT :: ts1 =>
-        match read_expr f ts1 with
+        match rexpr ts1 with
         | Some (e, ts2) => finish (MExprStmt (mepos e) e) ts2
         | None => None
         end
     | T ASSIGNMENT_STMT :: T LIST_GEN :: I n :: ts1 =>
-        match read_n (read_expr f) (Z.to_nat n) ts1 with
+        match read_n rexpr (Z.to_nat n) ts1 with
         | Some (lv, ts2) =>
-          match read_expr f ts2 with
-          | Some (rv, B false :: B ns :: ts3) => loc_finish (fun p => MAssign p lv rv ns) ts3
-          | _ => None    (* has_type = true: annotated assignment, outside the fragment *)
+          match rexpr ts2 with
+          | Some (rv, B false :: B ns :: ts3) => loc_finish (fun p => MAssign p lv (fix_temp p rv) ns) ts3
+          | Some (rv, B true :: ts3) =>
+              match read_ty f ts3 with
+              | Some (t, B ns :: ts4) => loc_finish (fun p => MAnnAssign p lv (fix_temp p rv) t ns) ts4
+              | _ => None
+              end
+          | _ => None
           end
         | None => None
         end
-    | T RETURN_STMT :: B true :: ts1 =>
-        match read_expr f ts1 with
-        | Some (e, ts2) => loc_finish (fun p => MReturn p (Some e)) ts2
+    | T OPERATOR_ASSIGNMENT_STMT :: T LITERAL_STR :: S op :: ts1 =>
+        match rexpr ts1 with
+        | Some (lv, ts2) =>
+          match rexpr ts2 with
+          | Some (rv, ts3) => loc_finish (fun p => MOpAssign p op lv rv) ts3
+          | None => None
+          end
         | None => None
         end
-    | T RETURN_STMT :: B false :: ts1 => loc_finish (fun p => MReturn p None) ts1
+    | T RETURN_STMT :: ts1 =>
+        match read_opt rexpr ts1 with
+        | Some (e, ts2) => loc_finish (fun p => MReturn p e) ts2
+        | None => None
+        end
     | T PASS_STMT :: ts1 => loc_finish MPass ts1
+    | T BREAK_STMT :: ts1 => loc_finish MBreak ts1
+    | T CONTINUE_STMT :: ts1 => loc_finish MContinue ts1
+    | T GLOBAL_DECL :: T LITERAL_INT :: I n :: ts1 =>
+        match read_n read_strtok (Z.to_nat n) ts1 with
+        | Some (ns, ts2) => loc_finish (fun p => MGlobal p ns) ts2
+        | None => None
+        end
+    | T NONLOCAL_DECL :: T LITERAL_INT :: I n :: ts1 =>
+        match read_n read_strtok (Z.to_nat n) ts1 with
+        | Some (ns, ts2) => loc_finish (fun p => MNonlocal p ns) ts2
+        | None => None
+        end
+    | T DEL_STMT :: ts1 =>
+        match rexpr ts1 with
+        | Some (e, ts2) => loc_finish (fun p => MDel p e) ts2
+        | None => None
+        end
+    | T ASSERT_STMT :: ts1 =>
+        match rexpr ts1 with
+        | Some (e, ts2) =>
+          match read_opt rexpr ts2 with
+          | Some (m, ts3) => loc_finish (fun p => MAssert p e m) ts3
+          | None => None
+          end
+        | None => None
+        end
+    | T RAISE_STMT :: ts1 =>
+        match read_opt rexpr ts1 with
+        | Some (e, ts2) =>
+          match read_opt rexpr ts2 with
+          | Some (c, ts3) => loc_finish (fun p => MRaise p e c) ts3
+          | None => None
+          end
+        | None => None
+        end
+    | T IMPORT :: T LITERAL_INT :: I n :: ts1 =>
+        match read_n read_alias (Z.to_nat n) ts1 with
+        | Some (ids, ts2) => import_finish (fun p => MImport p ids) ts2
+        | None => None
+        end
+    | T IMPORT_FROM :: T LITERAL_INT :: I rel :: T LITERAL_STR :: S m :: T LITERAL_INT :: I n :: ts1 =>
+        match read_n read_alias (Z.to_nat n) ts1 with
+        | Some (ns, ts2) => import_finish (fun p => MImportFrom p m rel ns) ts2
+        | None => None
+        end
+    | T IMPORT_ALL :: T LITERAL_STR :: S m :: T LITERAL_INT :: I rel :: ts1 => import_finish (fun p => MImportAll p m rel) ts1
     | T WHILE_STMT :: ts1 =>
-        match read_expr f ts1 with
+        match rexpr ts1 with
         | Some (e, ts2) =>
           match read_block ts2 with
           | Some (b, ts3) =>
@@ -676,9 +1110,9 @@ Fixpoint read_stmt (fuel : nat) (ts : list tok) {struct fuel} : option (mstmt * 
         | None => None
         end
     | T FOR_STMT :: ts1 =>
-        match read_expr f ts1 with
+        match rexpr ts1 with
         | Some (index, ts2) =>
-          match read_expr f ts2 with
+          match rexpr ts2 with
           | Some (e, ts3) =>
             match read_block ts3 with
             | Some (b, ts4) =>
@@ -693,22 +1127,55 @@ Fixpoint read_stmt (fuel : nat) (ts : list tok) {struct fuel} : option (mstmt * 
         | None => None
         end
     | T IF_STMT :: ts1 =>
-        match read_expr f ts1 with
+        match rexpr ts1 with
         | Some (e, ts2) =>
           match read_block ts2 with
           | Some (b, T LITERAL_INT :: I ne :: ts3) =>
-            match read_n read_elif (Z.to_nat ne) ts3 with
-            | Some (el, B true :: ts4) =>
-                match read_block ts4 with
-                | Some (eb, ts5) => loc_finish (fun p => MIf p e b (build_elifs el (Some eb))) ts5
+            match read_n (read_pair_with rexpr read_block) (Z.to_nat ne) ts3 with
+            | Some (el, ts4) =>
+                match read_opt read_block ts4 with
+                | Some (eb, ts5) => loc_finish (fun p => MIf p e b (build_elifs el eb)) ts5
                 | None => None
                 end
-            | Some (el, B false :: ts4) => loc_finish (fun p => MIf p e b (build_elifs el None)) ts4
-            | _ => None
+            | None => None
             end
           | _ => None
           end
         | None => None
+        end
+    | T WITH_STMT :: T LITERAL_INT :: I n :: ts1 =>
+        match read_n (read_pair_with rexpr (read_opt rexpr)) (Z.to_nat n) ts1 with
+        | Some (items, ts2) =>
+          match read_block ts2 with
+          | Some (b, B false :: ts3) => loc_finish (fun p => MWith p (map fst items) (map snd items) b) ts3
+          | _ => None   (* is_async *)
+          end
+        | None => None
+        end
+    | T TRY_STMT :: ts1 =>
+        match read_block ts1 with
+        | Some (b, T LITERAL_INT :: I nh :: ts2) =>
+          match read_n (read_opt rexpr) (Z.to_nat nh) ts2 with
+          | Some (types, ts3) =>
+            match read_n read_ovar (Z.to_nat nh) ts3 with
+            | Some (vars, ts4) =>
+              match read_n read_block (Z.to_nat nh) ts4 with
+              | Some (hbs, ts5) =>
+                match read_opt read_block ts5 with
+                | Some (eb, ts6) =>
+                  match read_opt read_block ts6 with
+                  | Some (fb, B false :: ts7) => loc_finish (fun p => MTry p b vars types hbs eb fb) ts7
+                  | _ => None   (* except*: outside the fragment *)
+                  end
+                | None => None
+                end
+              | None => None
+              end
+            | None => None
+            end
+          | None => None
+          end
+        | _ => None
         end
     | _ => None
     end
@@ -727,7 +1194,122 @@ Definition read_native (ts : list tok) : option (list mstmt) :=
   | _ => None
   end.
 
-(* ================================================================ the fragment on which the converters agree *)
+(* ================================================================ (iii) what the native front end yields, as a function
+   of the tree (positions by the reader's rules).  Proofs.read_native_emit: read_native (emit t) = Some (nconvert t)
+   for EVERY tree; the harness checks nconvert against the real nativeparse result. *)
+Fixpoint nconv_e (e : expr) : mexpr :=
+  match e with
+  | EName p id => MName p id
+  | EInt p v => MInt p v
+  | EStr p s => MStr p s
+  | EAttr p e a => mk_member p (nconv_e e) a
+  | ECall p f a => MCall p (nconv_e f) (nconv_args a) (arg_kinds a) (arg_names a)
+  | EBin p op l r => MOp (span (mepos (nconv_e l)) (mepos (nconv_e r))) (binop_str op) (nconv_e l) (nconv_e r)
+  | EUnary p op e => MUnary p (unop_str op) (nconv_e e)
+  | ECompare p l c => MCompare p (cmp_strs c) (nconv_e l :: nconv_cmps c)
+  | EBoolOp p op e1 e2 rest => mk_boolop p (boolop_str op) (nconv_e e1) (nconv_e e2) (nconv_es rest)
+  | EIfExp p t b o => MCond p (nconv_e t) (nconv_e b) (nconv_e o)
+  | ETuple p es => MTuple p (nconv_es es)
+  | EList p es => MList p (nconv_es es)
+  | ESet p es => MSet p (nconv_es es)
+  | EDict p it => MDict p (combine (nconv_dkeys it) (nconv_dvals it))
+  | ESubscript p v i => MIndex p (nconv_e v) (nconv_e i)
+  | ESlice p a b c => MSlice p (nconv_oe a) (nconv_oe b) (nconv_oe c)
+  | EStar p e => MStar p (nconv_e e)
+  | ELambda p ps b => MLambda p (nconv_params ps) (span (epos b) (epos b)) (epos b) (nconv_e b)
+  end
+with nconv_es (es : exprs) : list mexpr :=
+  match es with ENil => [] | ECons e es' => nconv_e e :: nconv_es es' end
+with nconv_args (a : args) : list mexpr :=
+  match a with ANil => [] | ACons _ e a' => nconv_e e :: nconv_args a' end
+with nconv_cmps (c : cmps) : list mexpr :=
+  match c with CNil => [] | CCons _ e c' => nconv_e e :: nconv_cmps c' end
+with nconv_oe (o : oexpr) : option mexpr :=
+  match o with ONone => None | OSome e => Some (nconv_e e) end
+with nconv_dkeys (d : ditems) : list (option mexpr) :=
+  match d with DNil => [] | DCons k _ r => nconv_oe k :: nconv_dkeys r end
+with nconv_dvals (d : ditems) : list mexpr :=
+  match d with DNil => [] | DCons _ v r => nconv_e v :: nconv_dvals r end
+with nconv_params (ps : params) : list marg :=
+  match ps with
+  | PNil => []
+  | PCons _ sp n k d r =>
+      MArg sp sp n (param_kind k (has_default d)) (nconv_oe d) (emit_pos_only k n) :: nconv_params r
+  end.
+
+Fixpoint nconv_ty (t : ty) : mty :=
+  match t with
+  | TyName p n => MUnbound p n [] false
+  | TyNone p => MUnbound p "None" [] false
+  | TySub p b tup a => MUnbound p b (nconv_tys a) (tup && match a with TNil => true | _ => false end)
+  | TyUnion p l r => mk_union p [nconv_ty l; nconv_ty r]
+  end
+with nconv_tys (a : tys) : list mty := match a with TNil => [] | TCons t ts => nconv_ty t :: nconv_tys ts end.
+
+Fixpoint nconv_ckws (k : ckws) : list (string * mexpr) :=
+  match k with KNil => [] | KCons n e r => (n, nconv_e e) :: nconv_ckws r end.
+Fixpoint nconv_witems (w : witems) : list (mexpr * option mexpr) :=
+  match w with WNil => [] | WCons c t r => (nconv_e c, nconv_oe t) :: nconv_witems r end.
+Fixpoint nconv_htypes (hs : handlers) : list (option mexpr) :=
+  match hs with HNil => [] | HCons _ ty _ _ _ r => nconv_oe ty :: nconv_htypes r end.
+Fixpoint nconv_hvars (hs : handlers) : list (option (string * pos)) :=
+  match hs with
+  | HNil => []
+  | HCons _ _ nm _ _ r => (match nm with Some (n, np) => Some (n, np) | None => None end) :: nconv_hvars r
+  end.
+
+Fixpoint nconv_s (s : stmt) {struct s} : mstmt :=
+  match s with
+  | SClass p name bases kws decos b0 bs =>
+      MClassDef p name (mk_block_ne false (nconv_s b0) (nconv_ss bs)) (nconv_es bases)
+        (find_metaclass (nconv_ckws kws)) (nconv_ckws kws) (nconv_es decos)
+  | SDef p name ps decos dp b0 bs =>
+      mk_funcdef p name (nconv_params ps) (nconv_es decos) dp
+        (mk_block_ne false (nconv_s b0) (nconv_ss bs))
+  | SExpr p e => MExprStmt (mepos (nconv_e e)) (nconv_e e)
+  | SAssign p t v => MAssign p (nconv_es t) (nconv_e v) false
+  | SAnnAssign p t a v => MAnnAssign p [nconv_e t] (match v with ONone => MTemp p | OSome e => nconv_e e end) (nconv_ty a) true
+  | SAugAssign p op t v => MOpAssign p (binop_str op) (nconv_e t) (nconv_e v)
+  | SReturn p v => MReturn p (nconv_oe v)
+  | SPass p => MPass p
+  | SBreak p => MBreak p
+  | SContinue p => MContinue p
+  | SGlobal p ns => MGlobal p ns
+  | SNonlocal p ns => MNonlocal p ns
+  | SDel p t0 ts => MDel p (match ts with ENil => nconv_e t0 | _ => MTuple p (nconv_e t0 :: nconv_es ts) end)
+  | SAssert p t m => MAssert p (nconv_e t) (nconv_oe m)
+  | SRaise p e c => MRaise p (nconv_oe e) (nconv_oe c)
+  | SImport p ns => MImport p ns
+  | SImportFrom p lv m ns => MImportFrom p m lv ns
+  | SImportAll p lv m => MImportAll p m lv
+  | SWhile p t b0 bs o => MWhile p (nconv_e t) (mk_block_ne false (nconv_s b0) (nconv_ss bs)) (mk_block false (nconv_ss o))
+  | SFor p t i b0 bs o =>
+      MFor p (nconv_e t) (nconv_e i) (mk_block_ne false (nconv_s b0) (nconv_ss bs)) (mk_block false (nconv_ss o))
+  | SIf p t b0 bs el o =>
+      MIf p (nconv_e t) (mk_block_ne false (nconv_s b0) (nconv_ss bs)) (build_elifs (nconv_elifs el) (mk_block false (nconv_ss o)))
+  | SWith p items b0 bs =>
+      MWith p (map fst (nconv_witems items)) (map snd (nconv_witems items)) (mk_block_ne false (nconv_s b0) (nconv_ss bs))
+  | STry p b0 bs hs o f =>
+      MTry p (mk_block_ne false (nconv_s b0) (nconv_ss bs)) (nconv_hvars hs) (nconv_htypes hs) (nconv_hbodies hs)
+        (mk_block false (nconv_ss o)) (mk_block false (nconv_ss f))
+  end
+with nconv_ss (ss : stmts) {struct ss} : list mstmt :=
+  match ss with SNil => [] | SCons s ss' => nconv_s s :: nconv_ss ss' end
+with nconv_elifs (el : elifs) {struct el} : list (mexpr * mblock) :=
+  match el with
+  | LNil => []
+  | LCons _ t b0 bs el' => (nconv_e t, mk_block_ne false (nconv_s b0) (nconv_ss bs)) :: nconv_elifs el'
+  end
+with nconv_hbodies (hs : handlers) {struct hs} : list mblock :=
+  match hs with
+  | HNil => []
+  | HCons _ _ _ b0 bs r => mk_block_ne false (nconv_s b0) (nconv_ss bs) :: nconv_hbodies r
+  end.
+
+Definition nconvert (ss : stmts) : list mstmt := nconv_ss ss.
+
+(* ================================================================ the fragment on which the converters agree exactly *)
+
 (* Where the stream carries no location the reader derives one from the children; this equals CPython's position
    exactly when no parenthesis / keyword precedes the first child or follows the last one. *)
 Fixpoint wf_e (e : expr) : Prop :=
@@ -740,33 +1322,51 @@ Fixpoint wf_e (e : expr) : Prop :=
   | ECompare _ l c => wf_e l /\ wf_cmps c
   | EBoolOp _ _ e1 e2 rest => rest = ENil /\ wf_e e1 /\ wf_e e2
   | EIfExp _ t b o => wf_e t /\ wf_e b /\ wf_e o
-  | ETuple _ es | EList _ es => wf_es es
+  | ETuple _ es | EList _ es | ESet _ es => wf_es es
+  | EDict _ it => wf_ditems it
+  | ESubscript _ v i => wf_e v /\ wf_e i
+  | ESlice _ a b c => wf_oe a /\ wf_oe b /\ wf_oe c
+  | EStar _ e => wf_e e
+  | ELambda _ _ _ => False      (* fastparse leaves the end of the LambdaExpr, of its block and of its return unset *)
   end
 with wf_es (es : exprs) : Prop := match es with ENil => True | ECons e es' => wf_e e /\ wf_es es' end
 with wf_args (a : args) : Prop := match a with ANil => True | ACons _ e a' => wf_e e /\ wf_args a' end
-with wf_cmps (c : cmps) : Prop := match c with CNil => True | CCons _ e c' => wf_e e /\ wf_cmps c' end.
+with wf_cmps (c : cmps) : Prop := match c with CNil => True | CCons _ e c' => wf_e e /\ wf_cmps c' end
+with wf_oe (o : oexpr) : Prop := match o with ONone => True | OSome e => wf_e e end
+with wf_ditems (d : ditems) : Prop := match d with DNil => True | DCons k v r => wf_oe k /\ wf_e v /\ wf_ditems r end.
 
-(* sp = p: not a `*args` / `**kwargs` parameter; and not a keyword-only parameter called `__x` (fastparse makes it
-   positional-only, the serializer does not) *)
+(* sp = p: not a `*args` / `**kwargs` parameter; and not a keyword-only / star parameter called `__x` (fastparse makes
+   it positional-only, the serializer does not) *)
 Fixpoint wf_params (ps : params) : Prop :=
   match ps with
   | PNil => True
-  | PCons p sp n k d r =>
-      sp = p /\ emit_pos_only k n = param_pos_only k n /\ match d with Some e => wf_e e | None => True end /\ wf_params r
+  | PCons p sp n k d r => sp = p /\ emit_pos_only k n = param_pos_only k n /\ wf_oe d /\ wf_params r
   end.
-
 Fixpoint wf_ckws (k : ckws) : Prop := match k with KNil => True | KCons _ e r => wf_e e /\ wf_ckws r end.
+Fixpoint wf_witems (w : witems) : Prop := match w with WNil => True | WCons c t r => wf_e c /\ wf_oe t /\ wf_witems r end.
 
 Fixpoint wf_s (s : stmt) : Prop :=
   match s with
   | SClass _ _ bases kws decos b0 bs => wf_es bases /\ wf_ckws kws /\ wf_es decos /\ wf_s b0 /\ wf_ss bs
-  | SDef _ _ ps b0 bs => wf_params ps /\ wf_s b0 /\ wf_ss bs
+  | SDef _ _ ps decos dp b0 bs =>
+      match decos with ENil => True | ECons d _ => p_line dp = p_line (epos d) /\ p_col dp = p_col (epos d) end /\
+      wf_params ps /\ wf_es decos /\ wf_s b0 /\ wf_ss bs
   | SExpr p e => p = epos e /\ wf_e e
   | SAssign _ t v => wf_es t /\ wf_e v
-  | SReturn _ v => match v with Some e => wf_e e | None => True end
-  | SPass _ => True
+  | SAnnAssign _ _ _ _ => False    (* declared types carry no end position (and the statement's line) under fastparse *)
+  | SAugAssign _ _ t v => wf_e t /\ wf_e v
+  | SReturn _ v => wf_oe v
+  | SPass _ | SBreak _ | SContinue _ | SGlobal _ _ | SNonlocal _ _ | SImport _ _ | SImportFrom _ _ _ _ | SImportAll _ _ _ => True
+  | SDel _ t0 ts => ts = ENil /\ wf_e t0          (* several targets: the synthetic TupleExpr has no column/end under fastparse *)
+  | SAssert _ t m => wf_e t /\ wf_oe m
+  | SRaise _ e c => wf_oe e /\ wf_oe c
   | SWhile _ t b0 bs o => wf_e t /\ wf_s b0 /\ wf_ss bs /\ wf_ss o
   | SFor _ t i b0 bs o => wf_e t /\ wf_e i /\ wf_s b0 /\ wf_ss bs /\ wf_ss o
   | SIf _ t b0 bs el o => el = LNil /\ wf_e t /\ wf_s b0 /\ wf_ss bs /\ wf_ss o
+  | SWith _ items b0 bs => wf_witems items /\ wf_s b0 /\ wf_ss bs
+  | STry _ b0 bs hs o f => wf_s b0 /\ wf_ss bs /\ wf_hs hs /\ wf_ss o /\ wf_ss f
   end
-with wf_ss (ss : stmts) : Prop := match ss with SNil => True | SCons s ss' => wf_s s /\ wf_ss ss' end.
+with wf_ss (ss : stmts) : Prop := match ss with SNil => True | SCons s ss' => wf_s s /\ wf_ss ss' end
+(* `except E as name`: the NameExpr is placed at the handler by fastparse, at the name by nativeparse *)
+with wf_hs (hs : handlers) : Prop :=
+  match hs with HNil => True | HCons _ ty nm b0 bs r => nm = None /\ wf_oe ty /\ wf_s b0 /\ wf_ss bs /\ wf_hs r end.
